@@ -2,7 +2,7 @@
 #include "props/reg_glue.hpp"
 using namespace rg;
 
-struct Op { int kind; uint32_t h; int vtype; uint64_t raw; };   // kind 0 set 1 set_unsafe 2 get
+struct Op { int kind; uint32_t h; int vtype; uint64_t raw; };   // kind 0 set 1 set_unsafe 2 get 3 sanitise (whole table)
 struct Case { TableD t; std::vector<Op> ops; };
 static Case *g_cur = nullptr; static size_t g_upto = 0;
 static std::string ser_case(const Case &c, size_t upto) {
@@ -23,6 +23,13 @@ static std::string step(Live &lv, rm::Space &m, const Op &op, std::string &msg) 
     const TableD &t = *lv.d;
     std::vector<std::vector<uint16_t>> before; lv.snapshot(before);
     bool bad_handle = op.h >= t.regs.size();
+    if (op.kind == 3) {
+        // part of the history only: whatever sanitise answers and restores (it may fail half-way on registers it cannot write) is
+        // taken over into the model; the set/get contract must hold unchanged afterwards
+        (void)register_sanitise(&lv.t);
+        lv.snapshot(m.mem);
+        return "";
+    }
     if (op.kind == 2) {
         RegisterValue out; memset(&out, 0x5a, sizeof out);
         RegisterAccess a = register_get(&lv.t, op.h, &out);
@@ -78,7 +85,8 @@ static std::string run_case(Case &c, std::string &msg, bool classify) {
         const Op &op = c.ops[i];
         if (classify) {
             bool nt = false;
-            if (op.h == c.t.regs.size()) { vp::cls("handle-one-past-end"); nt = true; }
+            if (op.kind == 3) { vp::cls("sanitise-in-history"); }
+            else if (op.h == c.t.regs.size()) { vp::cls("handle-one-past-end"); nt = true; }
             else if (op.h < c.t.regs.size() && op.kind != 2) {
                 const RegD &r = c.t.regs[op.h];
                 uint64_t v = rm::canon(r.type, op.raw);
@@ -116,7 +124,7 @@ static void run() {
     size_t ntables = (a.thorough() ? 20000 : 1500) / a.nshards, exhaustive16 = a.thorough() ? 200 : 6;
     vp::stats().rule = vp::fmt("enum/random: %zu generated valid tables per shard (1-3 areas, memory- and callback-backed, RW/RO/WO/no-write-callback/skip-defaults, 0-5 registers of all 8 types at every "
                                "alignment, constraints none/fail/min/max/range/callback, both byte orders); per register a stream of set/set_unsafe/get with values at type and constraint "
-                               "boundaries +-1, every float class incl. signalling NaNs, mistyped values, handles incl. one-past-the-end and UINT32_MAX; all 2^16 values for 16-bit registers on %zu tables", ntables, exhaustive16);
+                               "boundaries +-1, every float class incl. signalling NaNs, mistyped values, handles incl. one-past-the-end and UINT32_MAX; the same sets again after register_sanitise ran in the middle of the history; all 2^16 values for 16-bit registers on %zu tables", ntables, exhaustive16);
     vp::Rng rng(a.seed * 7001 + a.shard);
     for (size_t ti = 0; ti < ntables && !vp::too_many_failures(); ti++) {
         FamilyOpts big; big.max_areas = 6; big.max_size = 20; big.max_regs = 12;
@@ -141,6 +149,15 @@ static void run() {
         // bad handles
         for (uint32_t h : {(uint32_t)nr, (uint32_t)nr + 1, (uint32_t)nr + 7, UINT32_MAX, UINT32_MAX - 1})
             for (int kind = 0; kind < 3; kind++) c.ops.push_back({kind, h, (int)rng.below(rm::NTYPES), rng.next() & 0xffff});
+        // the same contract after a sanitise run in the middle of the history (it fails on tables with registers it cannot restore)
+        c.ops.push_back({3, 0, 0, 0});
+        for (size_t h = 0; h < nr; h++) {
+            const RegD &r = c.t.regs[h];
+            std::vector<uint64_t> vals = {0, type_max(r.type), gen_for(rng, r), r.def};
+            if (r.ckind >= rm::C_MIN && r.ckind <= rm::C_RANGE) { vals.push_back(step(r.type, r.lo, -1)); vals.push_back(step(r.type, r.hi, 1)); vals.push_back(r.lo); }
+            for (uint64_t v : vals) { c.ops.push_back({0, (uint32_t)h, r.type, rm::canon(r.type, v)}); if (rng.chance(1, 4)) c.ops.push_back({2, (uint32_t)h, 0, 0}); }
+            if (rng.chance(1, 6)) c.ops.push_back({3, 0, 0, 0});
+        }
         std::string msg, key = run_case(c, msg, true);
         if (!key.empty()) report(c, key, msg);
         if (vp::want_sample()) vp::sample(ser_case(c, 6) + vp::fmt("... (%zu ops)", c.ops.size()));
